@@ -22,6 +22,21 @@
 (*   to  - the connection whose socket received the bytes of SendTo (0 none) *)
 (*   ok  - result of SendTo                                                  *)
 (*                                                                          *)
+(* SEGMENTATION.  TCP delivers a byte stream: one read of the controller may  *)
+(* bring several consecutive messages of a connection, and a message may be  *)
+(* split over two reads.  Every Rx action therefore carries seg:              *)
+(*   "own"   - the message ends a read (alone or after "more" messages)      *)
+(*   "more"  - the read also holds the NEXT message of this connection: the  *)
+(*             read is still being processed (rd = c), nothing else can      *)
+(*             happen in between, nothing is observable from outside yet     *)
+(*   "split" - like "own", but the read ends inside this message and a       *)
+(*             second read brings the rest                                   *)
+(* The effect of a message on the state is the SAME whatever its seg: the    *)
+(* outcome of a coalesced or split delivery is by definition that of         *)
+(* one-message-per-read delivery.  Only the observation differs: a "more"    *)
+(* step logs the empty placeholder and its events are accumulated in acc;    *)
+(* the step closing the read logs acc followed by its own events.            *)
+(*                                                                          *)
 (* Latitude left to the implementation (property statement is silent):       *)
 (*  - a connection that had announced its dpid but was never announced up    *)
 (*    (half-open) may or may not get a connection-down when it goes away;    *)
@@ -44,6 +59,8 @@ CONSTANTS NC,       \* connections 1..NC
           Dpids,    \* datapath ids (integers >= 1, concretised by the harness)
           Ports,    \* port numbers carried by port-status messages
           MaxPS,    \* bound on buffered early port-status per connection
+          Segs,     \* subset of {"own","more","split"} containing "own"
+          MaxAcc,   \* bound on the events accumulated in one coalesced read
           NoiseKinds, \* subset of {"hello","desc","echo","pktin"}: messages without
                     \* lifecycle effect that are interleaved
           ErrKinds, \* subset of {"unsup","type","code","xid"}: error messages
@@ -61,12 +78,19 @@ VARIABLES ph,     \* [Conns -> {"none","open","closed"}] socket in the loop
                   \* reply (must be delivered), ~firm = before it (may be dropped)
           reg,    \* [Dpids -> Conns \cup {0}] registry, 0 = dpid not reachable
           ups,    \* live announced connections, in order of handshake completion
-          last,   \* observation of the last action
+          rd,     \* connection whose read is being processed ("more"), 0 = none
+          acc,    \* events raised so far in that read (observed when it ends)
+          fr,     \* the open read contains the features reply: the switch cannot
+                  \* have seen the controller's barrier request yet, so nothing
+                  \* carrying the barrier's xid can be in the same read
+          sg,     \* seg of the step just taken (copied into last.args)
+          last,   \* observation of the last action; last.own = events raised by
+                  \* this very message (what the properties talk about)
           hist    \* all observations (export only)
-vars  == <<ph, lost, feat, ann, down, defer, reg, ups, last, hist>>
+vars  == <<ph, lost, feat, ann, down, defer, reg, ups, rd, acc, fr, sg, last, hist>>
 \* VIEW of all model-checking and export runs: `last`/`hist` are observations,
 \* no invariant mentions them and the action properties read only last'
-viewE == <<ph, lost, feat, ann, down, defer, reg, ups>>
+viewE == <<ph, lost, feat, ann, down, defer, reg, ups, rd, acc, fr>>
 
 Live(c)   == ph[c] = "open" /\ ~lost[c]
 HalfOpen(c) == Live(c) /\ ~ann[c]
@@ -75,13 +99,14 @@ IsUp(c)   == Live(c) /\ ann[c]             \* live and fully handshaken
 \* event k of connection c with argument x (dpid / port); rr = the connection
 \* registered for c's dpid while the handlers of the event run
 E(k, c, x, rr) == [k |-> k, c |-> c, x |-> x, r |-> rr, t |-> rr]
-A(c, d, p, k) == [c |-> c, d |-> d, p |-> p, k |-> k]
+A(c, d, p, k) == [c |-> c, d |-> d, p |-> p, k |-> k, s |-> "own"]
 RegPairs(r) == {<<d, r[d]>> : d \in {dd \in Dpids : r[dd] # 0}}
 O(ev, r, g, to, ok) == [ev |-> ev, reg |-> RegPairs(r), gone |-> g, to |-> to, ok |-> ok]
 Gone == {c \in Conns : ph[c] = "closed" \/ lost[c]}
 
-NoObs == [a |-> "Init", args |-> A(0, 0, 0, ""),
-          exp |-> O(<<>>, [d \in Dpids |-> 0], {}, 0, TRUE)]
+\* what an outside observer sees while a read is still being processed
+Placeholder == O(<<>>, [d \in Dpids |-> 0], {}, 0, TRUE)
+NoObs == [a |-> "Init", args |-> A(0, 0, 0, ""), exp |-> Placeholder, own |-> <<>>]
 
 Init == /\ ph = [c \in Conns |-> "none"]
         /\ lost = [c \in Conns |-> FALSE]
@@ -91,13 +116,28 @@ Init == /\ ph = [c \in Conns |-> "none"]
         /\ defer = [c \in Conns |-> <<>>]
         /\ reg = [d \in Dpids |-> 0]
         /\ ups = <<>>
+        /\ rd = 0 /\ acc = <<>> /\ fr = FALSE /\ sg = "own"
         /\ last = NoObs
         /\ hist = <<>>
 
+\* rd' and sg' are fixed by the step's wrapper (InRead / NoRead) BEFORE the
+\* action's own conjuncts, so Log can tell whether the read stays open
 Log(a, args, exp) ==
-  /\ last' = [a |-> a, args |-> args, exp |-> exp]
-  /\ hist' = IF D > 0 THEN Append(hist, [a |-> a, args |-> args, exp |-> exp])
+  LET args2 == [args EXCEPT !.s = sg']
+      seen  == IF rd' # 0 THEN Placeholder ELSE [exp EXCEPT !.ev = acc \o exp.ev]
+  IN
+  /\ acc' = IF rd' # 0 THEN acc \o exp.ev ELSE <<>>
+  /\ last' = [a |-> a, args |-> args2, exp |-> seen, own |-> exp.ev]
+  /\ hist' = IF D > 0 THEN Append(hist, [a |-> a, args |-> args2, exp |-> seen])
              ELSE hist
+
+\* wrapper of a step that is not the delivery of a switch message
+NoRead == rd = 0 /\ rd' = 0 /\ sg' = "own" /\ fr' = FALSE
+\* wrapper of the delivery of a message on c with segmentation seg
+InRead(c, seg) == /\ rd \in {0, c} /\ sg' = seg
+                  /\ rd' = IF seg = "more" THEN c ELSE 0
+\* a read continues only on a connection the controller still serves
+StaysOpen(c, seg) == seg = "more" => (~lost'[c] /\ Len(acc') <= MaxAcc)
 
 \* most recent connection in u (other than x) whose dpid is d; 0 = none
 LatestIn(u, d, x) ==
@@ -282,23 +322,47 @@ SendToFail(d) ==
           GiveUp(reg[d], r, "SendToFail", A(0, d, 0, ""), TRUE)
      \/ Quiet("SendToFail", A(0, d, 0, ""))
 
-Next == \/ \E c \in Conns : Accept(c)
-        \/ \E c \in Conns, k \in NoiseKinds : RxNoise(c, k)
-        \/ \E c \in Conns, d \in Dpids : RxFeatures(c, d)
-        \/ \E c \in Conns, k \in {"match", "other"} : RxBarrier(c, k)
-        \/ \E c \in Conns, k \in ErrKinds : RxErr(c, k)
-        \/ \E c \in Conns : RxBarrierReject(c)
-        \/ \E c \in Conns, p \in Ports : RxPortStatus(c, p)
-        \/ \E c \in Conns : RxEchoFail(c)
-        \/ \E c \in Conns, k \in {"match", "unsup"} : RxEchoFailThen(c, k)
-        \/ \E c \in Conns : Disconnect(c)
-        \/ \E c \in Conns : Close(c)
-        \/ \E d \in Dpids : SendTo(d)
-        \/ \E d \in Dpids : SendToFail(d)
+Rx(c, seg, act) == /\ InRead(c, seg) /\ act /\ StaysOpen(c, seg)
+                   /\ fr' = (fr /\ seg = "more")
+\* ... of a message that answers the controller's barrier request
+RxX(c, seg, act) == ~fr /\ Rx(c, seg, act)
+RxF(c, seg, act) == /\ InRead(c, seg) /\ act /\ StaysOpen(c, seg)
+                    /\ fr' = (seg = "more")
+
+\* the steps of the system: each action under its segmentation wrapper
+StepAccept(c)        == NoRead /\ Accept(c)
+StepNoise(c, k, g)   == g \in Segs /\ Rx(c, g, RxNoise(c, k))
+StepFeatures(c, d, g) == g \in Segs /\ RxF(c, g, RxFeatures(c, d))
+StepBarrier(c, k, g) == IF k = "match" THEN RxX(c, g, RxBarrier(c, k))
+                        ELSE Rx(c, g, RxBarrier(c, k))
+StepErr(c, k, g)     == IF k = "xid" THEN Rx(c, g, RxErr(c, k))
+                        ELSE RxX(c, g, RxErr(c, k))
+StepReject(c)        == c \in Conns /\ RxX(c, "own", RxBarrierReject(c))
+StepPortStatus(c, p, g) == g \in Segs /\ Rx(c, g, RxPortStatus(c, p))
+StepEchoFail(c)      == c \in Conns /\ Rx(c, "own", RxEchoFail(c))
+StepEchoFailThen(c, k) == c \in Conns /\ RxX(c, "own", RxEchoFailThen(c, k))
+StepDisconnect(c)    == NoRead /\ Disconnect(c)
+StepClose(c)         == NoRead /\ Close(c)
+StepSendTo(d)        == NoRead /\ SendTo(d)
+StepSendToFail(d)    == NoRead /\ SendToFail(d)
+
+Next == \/ \E c \in Conns : StepAccept(c)
+        \/ \E c \in Conns, k \in NoiseKinds, g \in Segs : StepNoise(c, k, g)
+        \/ \E c \in Conns, d \in Dpids, g \in Segs : StepFeatures(c, d, g)
+        \/ \E c \in Conns, k \in {"match", "other"}, g \in Segs : StepBarrier(c, k, g)
+        \/ \E c \in Conns, k \in ErrKinds, g \in Segs : StepErr(c, k, g)
+        \/ \E c \in Conns : StepReject(c)
+        \/ \E c \in Conns, p \in Ports, g \in Segs : StepPortStatus(c, p, g)
+        \/ \E c \in Conns : StepEchoFail(c)
+        \/ \E c \in Conns, k \in {"match", "unsup"} : StepEchoFailThen(c, k)
+        \/ \E c \in Conns : StepDisconnect(c)
+        \/ \E c \in Conns : StepClose(c)
+        \/ \E d \in Dpids : StepSendTo(d)
+        \/ \E d \in Dpids : StepSendToFail(d)
 
 Spec == Init /\ [][Next]_vars
 \* every socket the controller gave up is eventually closed by the loop
-FairSpec == Spec /\ \A c \in Conns : WF_vars(Close(c))
+FairSpec == Spec /\ \A c \in Conns : WF_vars(StepClose(c))
 
 ----------------------------------------------------------------------------
 (* The property, over the real variables.                                   *)
@@ -310,6 +374,7 @@ TypeOK ==
   /\ feat \in [Conns -> Dpids \cup {0}]
   /\ reg \in [Dpids -> Conns \cup {0}]
   /\ \A c \in Conns : Len(defer[c]) <= MaxPS
+  /\ rd \in Conns \cup {0} /\ (rd = 0 => acc = <<>>) /\ Len(acc) <= MaxAcc
 
 \* THE REGISTRY: a dpid is reachable iff some live, fully handshaken
 \* connection has it, and then it reaches the one that completed last
@@ -339,19 +404,19 @@ CountEv(ev, k, c) == Cardinality({i \in 1..Len(ev) : ev[i].k = k /\ ev[i].c = c}
 \* features reply has been seen
 UpExactlyOnce ==
   [][\A c \in Conns :
-       LET n == CountEv(last'.exp.ev, "Up", c) IN
+       LET n == CountEv(last'.own, "Up", c) IN
        /\ n = (IF ann'[c] /\ ~ann[c] THEN 1 ELSE 0)
        /\ (ann[c] => ann'[c])
        /\ n = 1 => /\ Live(c) /\ feat[c] # 0 /\ feat'[c] = feat[c]
                    /\ last'.a \in {"RxBarrier", "RxErr", "RxEchoFailThen", "RxBarrierReject"}
                    /\ last'.args.c = c /\ last'.args.k \in {"match", "unsup"}
-                   /\ last'.exp.ev[1] = E("Up", c, feat[c], c)]_vars
+                   /\ last'.own[1] = E("Up", c, feat[c], c)]_vars
 
 \* connection-down at most once, exactly once for an announced connection by
 \* the time its socket is closed, never for a live connection
 DownExactlyOnce ==
   [][\A c \in Conns :
-       LET n == CountEv(last'.exp.ev, "Down", c) IN
+       LET n == CountEv(last'.own, "Down", c) IN
        /\ n = (IF down'[c] /\ ~down[c] THEN 1 ELSE 0)
        /\ (down[c] => down'[c])
        /\ n = 1 => ~(ph'[c] = "open" /\ ~lost'[c])
@@ -362,7 +427,7 @@ DownExactlyOnce ==
 \* them, once; never an event for a connection that is not announced
 PortStatusOrder ==
   [][\A c \in Conns :
-       LET evc == SelectSeq(last'.exp.ev, LAMBDA e : e.c = c /\ e.k # "Down") IN
+       LET evc == SelectSeq(last'.own, LAMBDA e : e.c = c /\ e.k # "Down") IN
        /\ (evc # <<>> /\ evc[1].k = "PS") =>
              /\ ann[c] /\ last'.a = "RxPortStatus" /\ last'.args.c = c
              /\ evc = <<E("PS", c, last'.args.p, reg'[feat[c]])>>
@@ -399,8 +464,8 @@ SendReaches ==
 \* of that dpid or nowhere; a port-status handler sees the registry of the
 \* state the step ends in.  Never a connection that is not live and announced.
 InHandlerView ==
-  [][\A i \in 1..Len(last'.exp.ev) :
-       LET e == last'.exp.ev[i] IN
+  [][\A i \in 1..Len(last'.own) :
+       LET e == last'.own[i] IN
        /\ e.t = e.r
        /\ e.k = "Up" => e.r = e.c
        /\ e.k = "Down" => e.r # e.c /\ e.r = reg'[feat[e.c]]
@@ -410,8 +475,20 @@ InHandlerView ==
 
 \* the registry reported in every observation is the registry
 ObsRegistry ==
-  [][/\ last'.exp.reg = RegPairs(reg')
-     /\ last'.exp.gone = {c \in Conns : ph'[c] = "closed" \/ lost'[c]}]_vars
+  [][IF rd' # 0 THEN last'.exp = Placeholder
+     ELSE /\ last'.exp.reg = RegPairs(reg')
+          /\ last'.exp.gone = {c \in Conns : ph'[c] = "closed" \/ lost'[c]}]_vars
+
+\* SEGMENTATION CHANGES NOTHING BUT THE MOMENT OF OBSERVATION: whatever seg,
+\* the events a read shows when it ends are exactly the events of its
+\* messages, in order - none lost, none duplicated, none reordered; while a
+\* read is open only its connection is served, and it is a live one
+ReadIsSum ==
+  [][/\ (rd' # 0) => (acc' = acc \o last'.own /\ ph'[rd'] = "open" /\ ~lost'[rd'])
+     /\ (rd' = 0) => (acc' = <<>> /\ last'.exp.ev = acc \o last'.own)
+     /\ (rd # 0) => (last'.args.c = rd /\ last'.a \in {"RxNoise", "RxFeatures",
+                         "RxBarrier", "RxErr", "RxPortStatus", "RxBarrierReject",
+                         "RxEchoFail", "RxEchoFailThen"})]_vars
 
 \* liveness (FairSpec): an announced connection that is lost gets its
 \* connection-down
@@ -433,16 +510,16 @@ ExportT == PrintT(<<"T", ToJson([h |-> hist', loop |-> (viewE' = viewE)])>>)
 ImplChoice ==
   LET a == last'.a
       c == last'.args.c
-      raised == last'.exp.ev # <<>>
+      raised == last'.own # <<>>
   IN
   /\ a \in {"RxEchoFail", "RxEchoFailThen"} => lost'[c] /\ ~raised  \* gives up, event
   /\ a = "SendToFail" => lost'[reg[last'.args.d]] /\ ~raised       \* deferred to close
   /\ a = "Disconnect" => (raised <=> TRUE \in DownChoices(c, FALSE))
-  /\ a = "RxBarrierReject" => Len(last'.exp.ev) = 2           \* disconnect() raises at once
+  /\ a = "RxBarrierReject" => Len(last'.own) = 2              \* disconnect() raises at once
   /\ (a = "RxBarrier" /\ last'.args.k = "other" /\ HalfOpen(c) /\ feat[c] # 0) =>
         lost'[c] /\ ~raised                                       \* dropped silently
   /\ (a = "Close" /\ Live(c)) => (raised <=> TRUE \in DownChoices(c, TRUE))
   /\ (a \in {"RxBarrier", "RxErr", "RxEchoFailThen"} /\ ~ann[c] /\ ann'[c]) =>  \* pre-features PS dropped
-        Len(last'.exp.ev) = 1 + Cardinality({i \in 1..Len(defer[c]) : defer[c][i].firm})
+        Len(last'.own) = 1 + Cardinality({i \in 1..Len(defer[c]) : defer[c][i].firm})
 ExportGuided == ExportT /\ ImplChoice
 =============================================================================
